@@ -161,6 +161,11 @@ def generate(ck):
             descs.append({"kind": "twophase", "params": p, "Sw": swc * frac})
             if swc < 0.9:
                 descs.append({"kind": "twophase-reject", "params": p, "Sw": swc + float(rng.choice([1e-6, 1e-2, 0.1]))})
+    # the inadmissible inputs once more in an interpreter started with -O (validation written as an
+    # `assert` vanishes there): one child process per 30 cases
+    rej = [d for d in descs if d["kind"] in ("reject-param", "reject-sum")]
+    for k in range(0, min(len(rej), 30 if ck.tier == "quick" else 600), 30):
+        descs.append({"kind": "python-O", "params": rej[k]["params"], "items": [{"kind": d["kind"], "params": d["params"], "sats": d["sats"]} for d in rej[k : k + 30]]})
     for g in range(3 if ck.tier == "quick" else 120):
         # four parameter sets evaluated from four threads at once
         descs.append({"kind": "threads", "params": _params(rng), "sets": [_params(rng) for _ in range(4)], "sats": _simplex(rng, 12).tolist()})
@@ -240,6 +245,34 @@ def run_case(ck, desc):
     params = RelPermParams(*desc["params"])
     kind = desc["kind"]
     EVENTS.clear()
+    if kind == "python-O":
+        snips = []
+        for it in desc["items"]:
+            sats = np.asarray(it["sats"], dtype=float).reshape(-1, 3).tolist()
+            snips.append(
+                "from bluebonnet.flow import RelPermParams, relative_permeabilities\n"
+                f"s = np.array([tuple(r) for r in {sats!r}], dtype=[('So', 'f8'), ('Sw', 'f8'), ('Sg', 'f8')])\n"
+                f"relative_permeabilities(s, RelPermParams(*{list(it['params'])!r}))\n"
+            )
+            if it["kind"] == "reject-param":
+                snips.append(
+                    "from bluebonnet.flow import RelPermParams, relative_permeabilities_twophase\n"
+                    f"p = RelPermParams(*{list(it['params'])!r})\n"
+                    "relative_permeabilities_twophase(p, min(max(p.S_wc, 0.0), 0.05))\n"
+                )
+        outs = instrument.outcomes_under_optimized_interpreter(snips)
+        n_ok = 0
+        for sn, o in zip(snips, outs):
+            if o.startswith("raised:"):
+                ck.count(f"rejections.python-O.{o[7:]}")
+                n_ok += 1
+            elif o == "returned":
+                ck.violation("rejected-also-in-an-optimised-interpreter", {"snippet": sn[-300:], "outcome": o}, desc)
+            else:
+                ck.inconclusive_because(f"python -O child: {o}")
+                break
+        EVENTS.clear()
+        return n_ok > 0, {"snippets": len(snips), "rejected": n_ok}
     if kind == "threads":
         import functools
 
